@@ -1,7 +1,7 @@
 SPECIFICATION Spec
 CONSTANTS
   Starts <- StartA
-  MaxData = 1
+  MaxData = 0
   FragChoices <- F1
   MaxFaults = 0
   FaultKinds <- NoFaults
@@ -12,6 +12,6 @@ CONSTANTS
   MaxRequery = 0
   FixCommitState = TRUE
   SeqSMP = FALSE
-  FixSMPReset = FALSE
-INVARIANTS TypeOK InOrderNoDup AllDelivered SlotsSuffice SlotBound SMPSound RunOutcomeKnown
+  FixSMPReset = TRUE
+INVARIANTS TypeOK InOrderNoDup AllDelivered SlotsSuffice SlotBound SMPSound RunOutcome
 CHECK_DEADLOCK FALSE
